@@ -74,7 +74,11 @@ class C14(Prop):
     def enumerate(self, tier, shard, nshards):
         hi = 256 if tier == 'quick' else 1536
         # interleave large and small n across shards
-        for n in range(1, hi + 1):
+        sizes = list(range(1, hi + 1))
+        if tier == 'quick':
+            # a sparse sample of larger sizes (typical factor sizes of real layers) on top of the complete range 1..256
+            sizes += [257, 300, 301, 320, 384, 500, 512, 513, 768, 1000, 1024, 1025]
+        for n in sizes:
             if n % nshards == shard:
                 yield {'kind': 'pack', 'n': n}
 
